@@ -2425,8 +2425,9 @@ def dim_plan(rec, thorough):
     thorough: every flavour x every variant (two variants for the expensive callables), clauses 1 and 2.
     quick: ONE case per family with both clauses -- the flavour of the family and the variant rotate with the callable (crc
     of its name), so that every callable meets every family and every flavour / variant is met by a share of the callables;
-    typed: one integer dtype and float32; sequence: both flavours; for the families typed / units / containers the other
-    variants of that flavour too, clause 1 only (one call each).  The quick tier SAMPLES the dimension sweep, thorough is complete."""
+    typed: one integer dtype and float32; sequence: the second flavour with clause 1 only; for the families typed / units /
+    containers the other variants of that flavour too, clause 1 only (one call each); typed / units / sizes: clause 2 with the
+    array write only.  The quick tier SAMPLES the dimension sweep, thorough is complete."""
     import zlib
     q = rec.qual
     nv = MAX_VARIANTS if q in SPECS else AUTO_VARIANTS
@@ -2453,8 +2454,8 @@ def dim_plan(rec, thorough):
             plan += [(fl, v, False) for v in range(min(nv, 6)) if v != v0]
         if fam == 'typed' and q not in SLOW:
             plan.append(('f32', (v0 + 1) % 3, True))
-        if fam == 'sequence' and q not in SLOW:      # both kinds of earlier call
-            plan.append((fls[(i // 7 + j + 1) % len(fls)], v0, True))
+        if fam == 'sequence' and q not in SLOW:      # the other kind of earlier call: clause 1 and the held result / arguments
+            plan.append((fls[(i // 7 + j + 1) % len(fls)], v0, False))
     return plan
 
 
@@ -2483,6 +2484,10 @@ def dim_sweep(thorough, visit, only=None, flavours=None):
                 continue
             n_ok[fl] = n_ok.get(fl, 0) + 1
             plan = plan_for(info, thorough) if both else []
+            if not thorough and DIM_FLAVOURS[fl] in ('typed', 'units', 'sizes'):
+                # quick: dtype / unit / size of the DATA: sharing of the data arrays (array-write); the in-place operations
+                # on the dictionaries go with the container / group / sequence families
+                plan = [x for x in plan if x[1] == 'array-write']
             fr = None
             if plan and q not in MUTATORS and q not in VIEW_BY_CONTRACT:
                 pl = [list(x) for x in plan]
@@ -2535,17 +2540,34 @@ def _hash_child():
     sys.stdout.write('\n@@C12HASH@@' + json.dumps(dict(hashseed=os.environ.get('PYTHONHASHSEED'), records=out), default=str) + '\n')
 
 
-def _hash_run(quals=None, cases=None, hashseed=HASHSEED):
-    """start a new interpreter with PYTHONHASHSEED=hashseed, run the cases there; fills _HASH; -> number of records"""
+def _hash_start(quals=None, cases=None, hashseed=HASHSEED):
+    """start a new interpreter with PYTHONHASHSEED=hashseed that runs the cases (it works while this process goes on)"""
     import subprocess
     import sys
     env = dict(os.environ, PYTHONHASHSEED=str(hashseed), MPLBACKEND='Agg', PYTHONDONTWRITEBYTECODE='1',
                PYTHONPATH=os.pathsep.join(p for p in sys.path if p))
-    pr = subprocess.run([sys.executable, '-c', 'import contracts.C12_c as m; m._hash_child()'], env=env, text=True,
-                        input=json.dumps(dict(quals=quals, cases=cases)), capture_output=True, timeout=1500)
-    tail = [ln for ln in pr.stdout.split('\n') if ln.startswith('@@C12HASH@@')]
+    req = tempfile.TemporaryFile('w+')
+    req.write(json.dumps(dict(quals=quals, cases=cases)))
+    req.seek(0)
+    out = tempfile.TemporaryFile('w+')
+    pr = subprocess.Popen([sys.executable, '-c', 'import contracts.C12_c as m; m._hash_child()'], env=env, text=True,
+                          stdin=req, stdout=out, stderr=subprocess.PIPE)
+    return pr, req, out, hashseed
+
+
+def _hash_run(quals=None, cases=None, hashseed=HASHSEED, started=None):
+    """run the cases in a new interpreter with PYTHONHASHSEED=hashseed; fills _HASH; -> number of records"""
+    pr, req, out, hashseed = started or _hash_start(quals, cases, hashseed)
+    try:
+        _, err = pr.communicate(timeout=1500)
+        out.seek(0)
+        stdout = out.read()
+    finally:
+        req.close()
+        out.close()
+    tail = [ln for ln in stdout.split('\n') if ln.startswith('@@C12HASH@@')]
     if pr.returncode != 0 or not tail:
-        raise RuntimeError(f'interpreter with PYTHONHASHSEED={hashseed} failed (rc={pr.returncode}): {pr.stderr[-400:]}')
+        raise RuntimeError(f'interpreter with PYTHONHASHSEED={hashseed} failed (rc={pr.returncode}): {err[-400:]}')
     data = json.loads(tail[-1][len('@@C12HASH@@'):])
     if str(data['hashseed']) != str(hashseed):
         raise RuntimeError('the new interpreter did not run under the requested hash seed')
@@ -3004,10 +3026,15 @@ def tier_c_dims(run, thorough):
 
     def visit(rec, case, diffs, fr):
         register(rec, case, diffs, fr, DIM_FLAVOURS[case['flavour']], orc_frame, orc_fresh)
-    n_ok = dim_sweep(thorough, visit)
-    # another hash seed, in a new interpreter
+    # another hash seed, in a new interpreter (started now, it works while this process runs the pool flavours)
     quals = sorted(recs()) if thorough else [q for q in HASH_QUICK if q in recs()]
-    n_hash = _hash_run(quals=quals)
+    started = _hash_start(quals=quals)
+    try:
+        n_ok = dim_sweep(thorough, visit)
+    except BaseException:
+        started[0].kill()
+        raise
+    n_hash = _hash_run(started=started)
     for (hs, _), r in sorted(_HASH.items()):
         if hs != HASHSEED or r['status'] != 'ok' or r['case']['fn'] not in recs():
             continue
